@@ -1,4 +1,5 @@
 import Pds.Proofs.KernelTie.BloomOps
+import Pds.Proofs.KernelTie.QfOps
 import Pds.Proofs.KernelTie.Cuckoo
 import Pds.Proofs.KernelTie.CuckooUnion
 /-!
@@ -51,5 +52,13 @@ theorem cuckoo_union_translated {R : Type} (I : RngI R) (hash : List Nat → Nat
       match Cuckoo.union I hash kicks s o with
       | none => Flow.panic
       | some (s', r) => Flow.ret (resB r, (s'.table.toList, s'.n, s'.rng)) := cuckoo_union_eq I hash kicks s o hbs
+
+/-- the quotient filter's `insert_internal` as translated is the model's `insertInternal` (0 = `Ok(false)`,
+1 = `Ok(true)`, 2 = `Err(QuotientFilterFull)`) -/
+theorem qf_insert_internal_translated {N : Nat} (t : Quotient.St N) (q : Fin N) (r : Nat) :
+    qf_insert_internal (occL t) (contL t) (shiftL t) (remL t) t.n q.val r =
+      match Quotient.insertInternal t q r with
+      | none => Flow.panic
+      | some (t', res) => Flow.ret (qfRes res, (occL t', contL t', shiftL t', remL t', t'.n)) := qf_insert_internal_eq t q r
 
 end Pds.Tie.C01
